@@ -409,7 +409,19 @@ func r083(c *Ctx, r *R) {
 				continue
 			}
 			kv, _ := constant.Int64Val(k.Val())
-			r.Check(kv > 0 && kv&(kv-1) == 0, "pintype:"+k.Name(), k.Pos(), k.Name()+" is a single bit", fmt.Sprintf("pin type %s = %d is not a single bit: its bit index does not restore it", k.Name(), kv))
+			cf := c.P.Func("api", "convertPinType")
+			if cf == nil {
+				r.Und("pintype:"+k.Name(), k.Pos(), "convertPinType not found")
+				continue
+			}
+			_, iv, ok := ssaEval(cf, bindParams(cf, map[int]constant.Value{0: k.Val()}))
+			if !ok {
+				// fall back to the structural condition
+				r.Check(kv > 0 && kv&(kv-1) == 0, "pintype:"+k.Name(), k.Pos(), k.Name()+" is a single bit", fmt.Sprintf("pin type %s = %d is not a single bit: its bit index does not restore it", k.Name(), kv))
+				continue
+			}
+			idx, _ := constant.Int64Val(iv)
+			r.Check(idx >= 0 && idx < 62 && int64(1)<<uint(idx) == kv, "pintype:"+k.Name(), k.Pos(), fmt.Sprintf("%s is stored as index %d and restored by 1<<%d", k.Name(), idx, idx), fmt.Sprintf("pin type %s = %d is stored as %d and restored as %d", k.Name(), kv, idx, int64(1)<<uint(idx&63)))
 		}
 	}
 }
@@ -564,23 +576,21 @@ func r084(c *Ctx, r *R) {
 func r085(c *Ctx, r *R) {
 	inverse := func(tn, strM, fromF string, skip map[string]bool) {
 		nt := c.namedType(r, "api", tn)
-		sfd, pkg := c.decl(r, "api", tn+"."+strM)
-		ffd, _ := c.decl(r, "api", fromF)
-		if nt == nil || sfd == nil || ffd == nil {
+		sf := c.fn(r, "api", tn+"."+strM)
+		ff := c.fn(r, "api", fromF)
+		if nt == nil || sf == nil || ff == nil {
 			return
 		}
-		recv := pkg.TypesInfo.ObjectOf(sfd.Recv.List[0].Names[0])
-		param := pkg.TypesInfo.ObjectOf(ffd.Type.Params.List[0].Names[0])
 		for _, k := range declaredConsts(nt) {
 			if skip[k.Name()] {
 				continue
 			}
-			s, ok := evalSwitchVal(pkg, sfd.Body.List, map[types.Object]constant.Value{recv: k.Val()})
+			_, s, ok := ssaEval(sf, bindParams(sf, map[int]constant.Value{0: k.Val()}))
 			if !ok || s.Kind() != constant.String {
-				r.Und("enum:"+tn+":"+k.Name(), sfd.Pos(), "%s.%s(%s) could not be evaluated", tn, strM, k.Name())
+				r.Und("enum:"+tn+":"+k.Name(), sf.Pos(), "%s.%s(%s) could not be evaluated", tn, strM, k.Name())
 				continue
 			}
-			back, ok := evalSwitchVal(pkg, ffd.Body.List, map[types.Object]constant.Value{param: s})
+			_, back, ok := ssaEval(ff, bindParams(ff, map[int]constant.Value{0: s}))
 			r.Check(ok && constant.Compare(back, token.EQL, k.Val()), "enum:"+tn+":"+k.Name(), k.Pos(), fmt.Sprintf("%s <-> %s", k.Name(), s), fmt.Sprintf("%s is rendered as %s, which %s does not parse back to %s", k.Name(), s, fromF, k.Name()))
 		}
 	}
